@@ -113,6 +113,9 @@ func c02Program(r *vfRand, e *c02Env, n int, bigReads bool) ([]vfPkt, int) {
 			p.Type, p.Path = rfOpendir, anyPath()
 		case x < 40:
 			p.Type, p.Handle, p.Off = rfRead, handle(), uint64(r.Intn(6000))
+			if r.Intn(15) == 0 {
+				p.Off = []uint64{1 << 63, 1<<64 - 1, 1<<63 - 1}[r.Intn(3)]
+			}
 			switch r.Intn(5) {
 			case 0:
 				p.Len = 0
@@ -127,6 +130,10 @@ func c02Program(r *vfRand, e *c02Env, n int, bigReads bool) ([]vfPkt, int) {
 			}
 		case x < 60:
 			p.Type, p.Handle, p.Off = rfWrite, handle(), uint64(r.Intn(6000))
+			if r.Intn(12) == 0 {
+				// an offset no signed 64-bit position can express is a refusal, i.e. one answer like any other
+				p.Off = []uint64{1 << 63, 1<<64 - 1, 1<<63 - 1, 1<<63 + 4096}[r.Intn(4)]
+			}
 			switch r.Intn(5) {
 			case 0:
 				p.Data = []byte{}
